@@ -52,6 +52,11 @@ def cases(tier, seed):
     for i in range(m):
         cs.append({'kind': ['mps-layer', 'mps-channel', 'supernet'][i % 3],
                    'seed': seed * 104729 + i})
+    # the repository's own MPS / SuperNet tests: every sampling event they cause goes through the same
+    # offline checker (coefficients moved by a real optimiser)
+    from vf import suitewl
+    cs += suitewl.cases(tier, select=('test_mps/', 'test_supernet/'),
+                        slow_in_quick=('test_regularization_loss_alpha_descent_layer',))
     return cs
 
 
@@ -93,8 +98,20 @@ def worker_setup(ctx):
         wrap(SuperNetCombiner, f, 'sn')
 
 
-def check_events(ctx, events):
-    """offline checker over the recorded sampling events"""
+def _min_top2_gap(a):
+    """smallest gap between the two largest raw coefficients of any column (inf for one alternative)"""
+    a2 = a.reshape(a.shape[0], -1)
+    if a2.shape[0] < 2:
+        return float('inf')
+    top = torch.topk(a2, 2, dim=0).values
+    return float((top[0] - top[1]).min())
+
+
+def check_events(ctx, events, min_gap=None):
+    """offline checker over the recorded sampling events.  `min_gap`: for workloads that do not
+    construct their coefficients (the repository's tests), the arg-max clauses are applied only to
+    events whose two largest coefficients are at least that far apart in every column (the property
+    excludes ties; its quantifier says gaps >= 0.05) - the probability-vector clause always applies."""
     for ev in events:
         ctx.mon('c10.event')
         a, th = ev['alpha'].double(), ev['after'].double()
@@ -119,6 +136,9 @@ def check_events(ctx, events):
         if not bool(torch.isfinite(th).all()) or bool((th < 0).any()) or \
                 bool(((cols - 1).abs() > 1e-6).any()):
             ctx.violation('sampling-rule', dict(d, sig='not-a-probability-vector:' + kind))
+            continue
+        if min_gap is not None and not (_min_top2_gap(a) >= min_gap):
+            ctx.count('events_with_near_ties_probability_clause_only')
             continue
         sel = a.argmax(dim=0)
         onehot = bool(((th == 0) | (th == 1)).all())
@@ -438,7 +458,27 @@ def run_model_history(case, ctx):
         ctx.sample({'model': k, 'history': hist, 'n_sampling_events': len(_log)})
 
 
+def run_suite(case, ctx):
+    from vf import suitewl
+    _log.clear()
+    _flags['record'] = True
+
+    def flush(_nodeid):
+        evs = list(_log)
+        _log.clear()
+        for e in evs:
+            e['configured'] = None
+        check_events(ctx, evs, min_gap=0.05)
+    try:
+        suitewl.run(case, ctx, ('c10.event',), on_test_end=flush)
+    finally:
+        _flags['record'] = False
+        _log.clear()
+
+
 def run_case(case, ctx):
+    if case.get('kind') == 'repo-suite':
+        return run_suite(case, ctx)
     if case['kind'] in ('qtz-layer', 'qtz-channel', 'combiner'):
         run_object_history(case, ctx)
     else:
